@@ -2003,6 +2003,14 @@ def sx_tree_names(x):
 
 def check_C12(ctx):
     Ls = loaded_stream(ctx, ctx.scale(250, 3000))
+    if FORCED is None:
+        # duplication-heavy families on small trees: sub-HOGs consisting solely of duplications (one or several)
+        heavy = [gen.gen_case(ctx.rng, nleaves=ctx.rng.randint(5, 9), nfam=ctx.rng.randint(1, 2), dup_heavy=True, tag='dup_heavy')
+                 for _ in range(ctx.scale(60, 600))]
+        Lh = core.load_cases(heavy)
+        for L in Lh:
+            ctx.record_case(L.case)
+        Ls = Ls + Lh
     plan = {}
     def cmds(L):
         if L.impl[0] != 'ok' or not L.case.consistent:
@@ -2490,6 +2498,15 @@ def check_C17(ctx):
             ctx.dist['with_species_without_genes'] += 1
         before = X.core()
         empty_before = X.empty_genomes()
+        # every lookup by name once before the history (whatever they memoise is stale at the end, where the
+        # session layer looks every name up again)
+        for S_ in (X, Y):
+            for nd_ in S_.ham.taxonomy.tree.traverse():
+                for fn_ in (S_.ham.get_ancestral_genome_by_name, S_.ham.get_extant_genome_by_name, S_.ham.get_taxon_by_name):
+                    try:
+                        fn_(nd_.name)
+                    except KeyError:
+                        pass
         ops = gen_ops(ctx, X, ctx.scale(40, 150))
         x_ops = []
         genomes_at_load = sorted(X.d.genome_at.keys())
@@ -2540,6 +2557,29 @@ def check_C17(ctx):
         impl_anc = sorted(X.d.path[g.taxon] for g in X.ham.get_list_ancestral_genomes())
         model_ext = sorted(P(p) for p in rep[2][1:])
         model_anc = sorted(P(p) for p in rep[3][1:])
+        # ... and the lookups by name of every node name, on the state the history left behind
+        byname_diff = None
+        for ent in rep[4][1:]:
+            nme = str(ent[0])
+            want_a = P(ent[1][1]) if str(ent[1][0]) == 'ok' else 'KeyError'
+            want_e = P(ent[2][1]) if str(ent[2][0]) == 'ok' else 'KeyError'
+            try:
+                got_a = X.d.path[X.ham.get_ancestral_genome_by_name(nme).taxon]
+            except KeyError:
+                got_a = 'KeyError'
+            try:
+                got_e = X.d.path[X.ham.get_extant_genome_by_name(nme).taxon]
+            except KeyError:
+                got_e = 'KeyError'
+            if (got_a, got_e) != (want_a, want_e):
+                byname_diff = {'name': nme, 'impl': [got_a, got_e], 'model': [want_a, want_e]}
+                break
+        if impl_g == model_g and impl_ext == model_ext and impl_anc == model_anc and byname_diff:
+            ctx.violation('session layer: genome lookup by name after the call history differs between model and implementation; '
+                          'props/C15.v: c15_genome_lookups_after_any_history no longer tied to the code',
+                          {'case': case_json(c), 'ops': [list(map(str, o)) for o in x_ops], 'lookup': byname_diff, 'layer': 'session'},
+                          no_input=True)
+            continue
         if impl_g == model_g and (impl_ext != model_ext or impl_anc != model_anc):
             ctx.violation('session layer: get_list_extant_genomes / get_list_ancestral_genomes after the call history differ between '
                           'model and implementation; props/C17.v: c17_extant_listing_unchanged no longer tied to the code',
